@@ -57,14 +57,21 @@ Definition nt_path (path : str) : str :=
   | _ => path
   end.
 
+(* `if parsed.port is not None: port = int(parsed.port); if not (1 <= port <= 65535): raise ValueError` *)
+Definition checked_port (netloc : str) : ures (option N) :=
+  po <~ port_of netloc ;;
+  match po with
+  | None => ROk None
+  | Some n => if (1 <=? n) && (n <=? 65535) then ROk (Some n) else RErr X_Value
+  end.
+
 Definition parse_uri (nt : bool) (uri : str) : ures pres :=
   p <~ urlparse uri ;;
   let host := hostname (p_netloc p) in
   let ui := userinfo (p_netloc p) in
   let user := unquote_if_truthy (fst ui) in
   let password := unquote_if_truthy (snd ui) in
-  po <~ port_of (p_netloc p) ;;
-  let port := match po with Some 0 => None | x => x end in      (* `if parsed.port:` *)
+  port <~ checked_port (p_netloc p) ;;
   let path0 := unquote (p_path p) in
   let path := if nt then nt_path path0 else path0 in
   let args := if is_nil (p_query p) then [] else dict_of_pairs (parse_qsl (p_query p)) in
@@ -116,14 +123,19 @@ Definition clean_auth (user pw : str) : ures str :=
       else RErr X_UnicodeEncode
   end.
 
-Definition clean_hostport (host : str) (port : option Z) : str :=
+(* the host as uri() writes it: an address with ':' (IPv6) gets brackets *)
+Definition host_text (host : str) : str :=
   match host with
   | [] => []
-  | _ :: _ => host ++ match port with
-                      | None => []
-                      | Some z => if (z =? 0)%Z then [] else 58 :: dec_of_Z z
-                      end
+  | ch :: _ => if chr_in 58 host && negb (ch =? 91) then 91 :: host ++ [93] else host
   end.
+(* `if self.port is not None: uri += ':%d' % self.port` *)
+Definition port_part (port : option Z) : str :=
+  match port with
+  | None => []
+  | Some z => 58 :: dec_of_Z z
+  end.
+Definition clean_hostport (host : str) (port : option Z) : str := host_text host ++ port_part port.
 
 Definition clean_uri (name user pw host : str) (port : option Z) (db : str) : ures str :=
   a <~ clean_auth user pw ;;
@@ -156,6 +168,10 @@ Definition host_char (c : N) : bool :=
   is_ascii c && negb (is_netloc_end c) && negb (c =? 64) && negb (c =? 58) && negb (c =? 91)
   && negb (c =? 93) && negb (is_tcn c).
 Definition valid_host (h : str) : bool := forallb host_char h.
+(* or an IPv6 address as the ipaddress module accepts it, without zone:
+   hex digits, ':' and '.' only *)
+Definition ip6_char (c : N) : bool := is_hex c || (c =? 58) || (c =? 46).
+Definition valid_host6 (h : str) : bool := chr_in 58 h && forallb ip6_char h && valid_ipv6 h.
 
 (* urlparse's normalisation of the host: lower-cased up to a '%' *)
 Definition norm_host (h : str) : str :=
@@ -170,19 +186,19 @@ Record comps := { c_user : str; c_pw : str; c_host : str; c_port : option Z; c_d
                   c_args : list (str * str) }.
 
 (* the domain of the property: any texts without lone surrogates, a host that
-   is a host, any integer port *)
+   is a host name or an IPv6 address, any integer port *)
 Definition in_domain (name : str) (c : comps) : bool :=
   valid_scheme name && valid_text (c_user c) && valid_text (c_pw c) && valid_text (c_db c)
-  && valid_host (c_host c).
+  && (valid_host (c_host c) || valid_host6 (c_host c)).
 
 (* trigger classes of the findings / explicit refusals *)
 Definition port_in_range (c : comps) : bool :=
   match c_port c with None => true | Some z => (1 <=? z)%Z && (z <=? 65535)%Z end.
-Definition port_has_host (c : comps) : bool :=
-  match c_port c with None => true | Some _ => negb (is_nil (c_host c)) end.
 Definition pw_has_user (c : comps) : bool := negb (is_nil (c_user c)) || is_nil (c_pw c).
 Definition no_args (c : comps) : bool := is_nil (c_args c).
-Definition guard (c : comps) : bool := port_in_range c && port_has_host c && pw_has_user c && no_args c.
+(* what is still excluded: extra parameters (open finding) and a password
+   without a user name (uri() refuses it with an assert) *)
+Definition guard (c : comps) : bool := pw_has_user c && no_args c.
 
 Definition build_comps (name : str) (c : comps) : ures str :=
   build_uri name (c_user c) (c_pw c) (c_host c) (c_port c) (c_db c).
@@ -207,9 +223,6 @@ Definition port_value (p : str) : option N :=
 (* the property's range (the one _parseOldURI enforces): 1..65535 *)
 Definition port_text_in_range (p : str) : bool :=
   match port_value p with Some n => (1 <=? n) && (n <=? 65535) | None => false end.
-(* the trigger class of the finding: a numeral with value 0 *)
-Definition port_text_zero (p : str) : bool :=
-  match port_value p with Some n => n =? 0 | None => false end.
 
 (* characters that do not change where the network location ends and that the
    model of urlsplit covers: ASCII, none of / ? # [ ] tab CR LF *)
